@@ -132,10 +132,17 @@ T7 = [
  ("R7_C04_1", "D", 1, [("demo.rs", "server/tests/demo.rs")], "cargo test -p server --offline --test demo", ["C04", "C09", "C11"]),
 ]
 
+# eighth round (SEEDED_SRC=/tmp/s8): one property text per agent, 5-minute limit
+T8 = [
+ ("R8_C09_1", "A", 1, [("demo.rs", "solution/tests/demo.rs")], "cargo test -p solution --offline --test demo", ["C09", "C11"]),
+ ("R8_C15_1", "B", 1, [("demo.rs", "solution/tests/demo.rs")], "cargo test -p solution --offline --test demo", ["C15"]),
+ ("R8_C05_1", "C", 1, [("demo.rs", "server/tests/demo.rs")], "cargo test -p server --offline --test demo", ["C05", "C16"]),
+]
+
 def confirm2(only):
-    path = "/verif/notes/seeded2_confirm.json"
+    path = os.environ.get("SEEDED_CONFIRM2_PATH", "/verif/notes/seeded2_confirm.json")
     res = json.load(open(path)) if os.path.exists(path) else {}
-    for (key, wtid, k, demos, cmd, _checks) in T2 + T3 + T4 + T5 + T6 + T7:
+    for (key, wtid, k, demos, cmd, _checks) in T2 + T3 + T4 + T5 + T6 + T7 + T8:
         if only and key not in only:
             continue
         wt = "%s/%s" % (SRC, wtid); out = "%s/%s-out" % (SRC, wtid)
@@ -167,7 +174,7 @@ def detect2(only):
     res = json.load(open(path)) if os.path.exists(path) else {}
     if sh("git -C /repo diff --quiet")[0] != 0:
         print("/repo dirty"); sys.exit(2)
-    for (key, wtid, k, demos, cmd, checks) in T2 + T3 + T4 + T5 + T6 + T7:
+    for (key, wtid, k, demos, cmd, checks) in T2 + T3 + T4 + T5 + T6 + T7 + T8:
         if only and key not in only:
             continue
         diff = "%s/%s-out/change%d.diff" % (SRC, wtid, k)
@@ -276,7 +283,7 @@ def redetect(only):
     d1 = json.load(open("/verif/notes/seeded_detect.json")); d2 = json.load(open("/verif/notes/seeded2_detect.json"))
     if sh("git -C /repo diff --quiet")[0] != 0:
         print("/repo dirty"); sys.exit(2)
-    items = [("%s_%d" % (pid, k), checks) for (pid, k, _d, _dest, _cmd, checks) in T] + [(key, checks) for (key, _w, _k, _dm, _cmd, checks) in T2 + T3 + T4 + T5 + T6 + T7]
+    items = [("%s_%d" % (pid, k), checks) for (pid, k, _d, _dest, _cmd, checks) in T] + [(key, checks) for (key, _w, _k, _dm, _cmd, checks) in T2 + T3 + T4 + T5 + T6 + T7 + T8]
     for key, checks in items:
         if (only and key not in only) or key in res:
             continue
